@@ -6,6 +6,7 @@ import (
 	"encoding/json"
 	"flag"
 	"fmt"
+	"io"
 	"io/ioutil"
 	"os"
 	"path/filepath"
@@ -38,6 +39,8 @@ type osStep struct {
 	Delim  bool       `json:"delim"`
 	Count  int        `json:"count"`
 	Items  [][]string `json:"items"`
+	Next   []string   `json:"next"`
+	Rest   [][]string `json:"rest"`
 }
 
 func joinKey(k []string) string { return strings.Join(k, "") }
@@ -54,7 +57,15 @@ func newBackend(kind, dir string, lock bool) (storage.Store, func()) {
 	}
 }
 
-func valBytes(v int) []byte { return []byte(fmt.Sprintf("value-%d", v)) }
+// valBytes: values of clearly different lengths (an overwrite by a shorter value must not leave a tail)
+func valBytes(v int) []byte {
+	return []byte(fmt.Sprintf("value-%d%s", v, strings.Repeat("+", (3-v%4)*(3-v%4)*11)))
+}
+
+// plainReader hides every optional interface (io.WriterTo, io.Seeker, Len) of the reader it wraps.
+type plainReader struct{ r io.Reader }
+
+func (p plainReader) Read(b []byte) (int, error) { return p.r.Read(b) }
 
 // scan performs the paginated loop every datamon listing performs.
 func scan(s storage.Store, prefix, delim string, count int, firstOnly bool) ([]string, [][]string, error) {
@@ -158,7 +169,11 @@ func objstoreReplay(args []string) error {
 				switch st.Op {
 				case "put":
 					muts++
-					err := s.Put(ctx, key, bytes.NewReader(valBytes(st.Val)), st.Excl)
+					var src io.Reader = bytes.NewReader(valBytes(st.Val))
+					if (i+j)%2 == 1 {
+						src = plainReader{src} // a source that is only an io.Reader
+					}
+					err := s.Put(ctx, key, src, st.Excl)
 					got := "ok"
 					if err != nil {
 						got = "exists"
@@ -198,6 +213,54 @@ func objstoreReplay(args []string) error {
 					ok, err := s.Has(ctx, key)
 					if err != nil || ok != st.Found {
 						bad("has/wrong", st.Found, ok, fmt.Sprint(err))
+					}
+				case "scandel":
+					muts++
+					prefix := joinKey(st.Prefix)
+					delim := ""
+					if st.Delim {
+						delim = "/"
+					}
+					join := func(items [][]string) []string {
+						out := make([]string, 0, len(items))
+						for _, it := range items {
+							out = append(out, joinKey(it))
+						}
+						return out
+					}
+					page, next, err := s.KeysPrefix(ctx, "", prefix, delim, st.Count)
+					if err != nil {
+						bad("list/error", join(st.Items), fmt.Sprint(err), "first page")
+						return
+					}
+					if page == nil {
+						page = []string{}
+					}
+					if !vutil.EqStrings(join(st.Items), page) || next != joinKey(st.Next) {
+						bad("scandel/first-page", append(join(st.Items), "next="+joinKey(st.Next)), append(page, "next="+next), fmt.Sprintf("prefix=%q delim=%q count=%d", prefix, delim, st.Count))
+						return
+					}
+					if err := s.Delete(ctx, key); err != nil {
+						bad("del/error-on-present", nil, fmt.Sprint(err), "")
+						return
+					}
+					var rest []string
+					tok := next
+					for n := 0; tok != "" && n < 10000; n++ {
+						pg, nx, err := s.KeysPrefix(ctx, tok, prefix, delim, st.Count)
+						if err != nil {
+							bad("list/error", join(st.Rest), fmt.Sprint(err), "after the deletion")
+							return
+						}
+						rest = append(rest, pg...)
+						tok = nx
+					}
+					if rest == nil {
+						rest = []string{}
+					}
+					if exp := join(st.Rest); !vutil.EqStrings(exp, rest) {
+						bad("scandel/rest-"+strings.TrimPrefix(classifyList(exp, rest, prefix, st.Delim), "list/"), exp, rest,
+							fmt.Sprintf("prefix=%q delim=%q count=%d: %q deleted after the first page (token %q)", prefix, delim, st.Count, key, next))
 					}
 				case "scan", "page1":
 					prefix := joinKey(st.Prefix)
